@@ -27,7 +27,9 @@ try:
     rt.autoprove = False
     be = rt.backend
     if not hasattr(be, "process_snark"): be.process_snark = None
-    out = dict(name=rt.backend_name, module=be.__name__, modulus=str(be.get_modulus()),
+    p = be.get_modulus()
+    out = dict(name=rt.backend_name, module=be.__name__, modulus=str(p),
+               inv=all(v * be.fieldinverse(v) %% p == 1 for v in (7, -3, p + 2)) if hasattr(be, "fieldinverse") and p > 10**6 else True,
                iface=[a for a in %(iface)r if not hasattr(be, a)])
 except Exception as ex:
     out = dict(error="%%s: %%s" %% (type(ex).__name__, ex))
@@ -35,8 +37,95 @@ print("RESULT " + json.dumps(out))
 '''
 
 
+SCRIPT_LS = r'''
+import json, sys
+%(pre)s
+try:
+    import pysnark.runtime as rt
+    rt.autoprove = False
+    from pysnark.runtime import PrivVal, PubVal
+    be = rt.backend
+    if not hasattr(be, "process_snark"): be.process_snark = None
+    x = PrivVal(3); y = PubVal(5)
+    (x * x).assert_eq(9); (x * y + 1).val(); (x / 3).val(); (x != y).val()
+    import libsnark.alt_bn128 as L
+    n0 = len(L.CALLS)
+    be.prove(do_print=False)
+    p = be.get_modulus()
+    out = dict(name=rt.backend_name, module=be.__name__, modulus=str(p), families=sorted({f for f, _ in L.CALLS[n0:]}),
+               calls=[c for _, c in L.CALLS[n0:]], ncons=be.pb.num_constraints(), sat=bool(be.pb.is_satisfied()),
+               inv=all(v * be.fieldinverse(v) %% p == 1 for v in (7, -3, p + 2)),
+               iface=[a for a in %(iface)r if not hasattr(be, a)])
+except Exception as ex:
+    out = dict(error="%%s: %%s" %% (type(ex).__name__, ex))
+print("RESULT " + json.dumps(out))
+'''
+LS_NAME2MOD = {"libsnark": "pysnark.libsnark.backend", "libsnarkgg": "pysnark.libsnark.backendgg"}
+LS_FAMILY = {"libsnark": "pghr13", "libsnarkgg": "groth16"}
+
+
+def rows_libsnark():
+    """the names libsnark / libsnarkgg, exercised with the recording stand-in for the extension (stubs_libsnark)"""
+    rs = [("ls:libsnark", ()), ("ls:libsnarkgg", ()), ("ls:", ())]
+    for m in LS_NAME2MOD.values():
+        rs.append(("ls:", (m,)))
+        rs.append(("ls:snarkjs", (m,)))
+    return rs
+
+
+def run_row_libsnark(args):
+    envname, pre = args
+    envname = envname[3:] or None
+    d = tempfile.mkdtemp(prefix="verif_c19_")
+    try:
+        env = dict(os.environ)
+        env["PYTHONPATH"] = os.path.join(C.VERIF, "stubs_libsnark") + os.pathsep + os.path.join(C.VERIF, "stubs") + os.pathsep + C.REPO
+        env["QAPTOOLS_BIN"] = "/nonexistent"
+        env.pop("PYSNARK_BACKEND", None)
+        if envname:
+            env["PYSNARK_BACKEND"] = envname
+        src = SCRIPT_LS % dict(pre="\n".join("import %s" % m for m in pre), iface=IFACE)
+        open(os.path.join(d, "s.py"), "w").write(src)
+        p = subprocess.run([C.REPLAY_PY, "s.py"], cwd=d, env=env, capture_output=True, text=True, timeout=120)
+        m = re.search(r"RESULT (.*)", p.stdout)
+        out = json.loads(m.group(1)) if m else dict(error="no result: " + p.stderr[-200:])
+        out.update(env="ls:" + (envname or ""), pre=list(pre), stdout=p.stdout[-300:])
+        return out
+    finally:
+        shutil.rmtree(d, ignore_errors=True)
+
+
+def judge_libsnark(r):
+    envname = r["env"][3:] or None
+    if r["pre"]:
+        exp = [n for n, m in LS_NAME2MOD.items() if m == r["pre"][0]][0]
+    elif envname in LS_NAME2MOD:
+        exp = envname
+    else:
+        exp = "libsnark"                    # auto-detection: first loadable entry of the list
+    if "error" in r:
+        return False, "selection or proving failed: %s" % r["error"]
+    if r["name"] != exp:
+        return False, "backend name %s, expected %s" % (r["name"], exp)
+    if r["module"] != LS_NAME2MOD[exp]:
+        return False, "module %s for name %s" % (r["module"], exp)
+    if int(r["modulus"]) != FIELD["snarkjs"]:
+        return False, "name %s but field modulus %s" % (exp, r["modulus"])
+    if r["families"] != [LS_FAMILY[exp]]:
+        return False, "name %s but prove() used the proof-system entry points of %s (%s)" % (exp, r["families"], r["calls"])
+    if not (r["sat"] and r["ncons"] >= 4):
+        return False, "the selected module did not receive a satisfied trace (constraints=%s, satisfied=%s)" % (r["ncons"], r["sat"])
+    if not r["inv"]:
+        return False, "fieldinverse is not an inverse modulo the reported modulus"
+    if r["iface"]:
+        return False, "backend %s lacks %s" % (exp, r["iface"])
+    return True, ""
+
+
 def run_row(args):
     envname, pre = args
+    if (envname or "").startswith("ls:"):
+        return run_row_libsnark(args)
     d = tempfile.mkdtemp(prefix="verif_c19_")
     try:
         env = dict(os.environ)
@@ -70,6 +159,8 @@ def expected(envname, pre):
 
 
 def judge(r):
+    if (r["env"] or "").startswith("ls:"):
+        return judge_libsnark(r)
     exp = expected(r["env"], r["pre"])
     if exp == "ERROR":
         return ("error" in r), "a known but unloadable backend must fail loudly"
@@ -83,6 +174,8 @@ def judge(r):
         return False, "name %s but field modulus %s" % (exp, r["modulus"])
     if r["iface"]:
         return False, "backend %s lacks %s" % (exp, r["iface"])
+    if not r.get("inv", True):
+        return False, "backend %s: fieldinverse is not an inverse modulo the reported modulus" % exp
     if r["env"] == "bogus" and not r.get("reported_unknown"):
         return False, "unknown backend name not reported"
     return True, ""
@@ -95,7 +188,7 @@ def rows():
     for n, m in NAME2MOD.items():
         rs.append((None, (m,)))
         rs.append(("snarkjs" if n != "snarkjs" else "nobackend", (m,)))      # pre-import wins over the environment
-    return rs
+    return rs + rows_libsnark()
 
 
 def part_b(rep, tier, known):
